@@ -129,6 +129,8 @@ def _period_case(rng, tier):
             ops.append({"op": "replace"})
         else:
             ops.append({"op": "conc", "lim": lim, "key": rng.randrange(nkeys), "g": rng.randint(2, 8)})
+    if rng.random() < 0.1 and not any(op.get("down") for op in ops):
+        ops.insert(rng.randrange(len(ops) + 1), {"op": "noise", "n": 400})
     case = {"kind": "period", "lims": lims, "t0": T0_BASE + rng.randrange(10 ** 9), "ops": ops}
     if rng.random() < 0.6:
         # the server's clock is the callers' wall clock plus a constant skew (seconds)
@@ -283,6 +285,8 @@ def _token_case(rng, tier, outage=None):
                 op["g"] = rng.choice([8, 12, 16, 32])
             ops.append(op)
             after()
+    if rng.random() < 0.1 and not any(op["op"] in ("fault", "replace") for op in ops):
+        ops.insert(rng.randrange(len(ops) + 1), {"op": "noise", "n": 400})
     return {"kind": "token", "rate": rate, "burst": burst, "insts": insts, "t0": T0_BASE + rng.randrange(10 ** 9), "ops": ops}
 
 
@@ -380,6 +384,47 @@ def _stair_case(rng, outage=False):
             "ops": ops}
 
 
+def _aligned_live_case(rng, period, nap):
+    """directed: an Align() limiter that LIVES: the callers' wall clock really advances (nap ms) between its
+    construction and its takes and between windows; every window must end where the aligned window of the
+    take that opened it ends (tickw = step the server to that end, +- 1 ms)"""
+    quota = 2
+    tk = lambda: {"op": "take", "lim": 0, "key": 0, "down": False}
+    tw = lambda ms: {"op": "tickw", "lim": 0, "key": 0, "ms": ms}
+    ops = [{"op": "sleep", "ms": nap}, tk(), tk(), tk(), tw(-1), tk(), {"op": "tick", "ms": 1},
+           {"op": "sleep", "ms": 1100}, tk(), tk(), tk(), tw(-1), tk(), {"op": "tick", "ms": 1}, tk(), tk(), tk()]
+    return {"kind": "period", "lims": [{"period": period, "quota": quota, "align": True, "pfx": 0}], "clk": "real", "skew": 0,
+            "t0": T0_BASE + rng.randrange(10 ** 9), "ops": ops}
+
+
+def _noise_cases(rng):
+    """directed: another handle to the same address piles up 400 unacceptable errors (WRONGTYPE) in between;
+    the limiters' own handles (own breakers) must not notice: every decision stays Redis's"""
+    al = lambda n: {"op": "allow", "inst": 0, "n": n, "ctx": 0, "skew": 0}
+    rate, burst = rng.choice([(1, 3), (2, 5), (5, 10)])
+    tops = [al(1), {"op": "noise", "n": 400}] + [al(1) for _ in range(burst + 1)] + [{"op": "tick", "ms": 1000}, {"op": "noise", "n": 400}]
+    tops += [al(1) for _ in range(rate + 1)]
+    tk = lambda k=0: {"op": "take", "lim": 0, "key": k, "down": False}
+    pops = [tk(), {"op": "noise", "n": 400}, tk(), tk(), tk(1), {"op": "tick", "ms": 2000}, {"op": "noise", "n": 400}, tk(), tk(), tk()]
+    return [{"kind": "token", "rate": rate, "burst": burst, "insts": 1, "t0": T0_BASE + rng.randrange(10 ** 9), "ops": tops},
+            {"kind": "period", "lims": [{"period": 2, "quota": 2, "align": False, "pfx": 0}], "t0": T0_BASE + rng.randrange(10 ** 9), "ops": pops}]
+
+
+def _race_case(rng):
+    """directed: the recovery race. A request that entered while the limiter was alive fails late and reaches
+    startMonitor between the monitor's `alive = 1` and its `monitorStarted = false` (forced through rescueLock).
+    Afterwards the limiter must be alive or monitored, and decisions must be Redis's again."""
+    rate, burst = rng.choice([(1, 3), (2, 5), (5, 10)])
+    insts = rng.choice([1, 2])
+    al = lambda n, inst=0: {"op": "allow", "inst": inst, "n": n, "ctx": 0, "skew": 0}
+    ops = [al(1)]
+    for _ in range(2):
+        inst = rng.randrange(insts)
+        ops += [{"op": "race", "inst": inst, "n": 1}] + [al(1, rng.randrange(insts)) for _ in range(3)] + [{"op": "tick", "ms": 1000}]
+    ops += [al(1, rng.randrange(insts)) for _ in range(burst + 1)]
+    return {"kind": "token", "rate": rate, "burst": burst, "insts": insts, "t0": T0_BASE + rng.randrange(10 ** 9), "ops": ops}
+
+
 def _fixed_cases(rng, tier):
     """cases every run starts with (real-time outages are too expensive to leave to chance)"""
     if tier == "thorough":
@@ -390,12 +435,17 @@ def _fixed_cases(rng, tier):
         spans = [2000, 3000]
         hangs = [200, 200, 0]
         k = 1
-    cases = [_long_outage_case(rng, tier, ms) for ms in spans]
+    cases = _noise_cases(rng)      # first: whatever might be shared per address has seen few successes yet
+    cases += [_long_outage_case(rng, tier, ms) for ms in spans]
     cases += [_hang_case(rng, rto) for rto in hangs]
     for _ in range(k):
         cases += [_inflight_case(rng), _skew_case(rng, 3600), _skew_case(rng, -3600)]
         cases += [_slow_conc_case(rng, g) for g in (8, 16, 32)]
         cases += [_cut_case(rng), _cut_case(rng), _stair_case(rng), _stair_case(rng)]
+    cases += [_race_case(rng) for _ in range(2 if tier != "thorough" else 10)]
+    cases += [_aligned_live_case(rng, 5, 1200), _aligned_live_case(rng, 60, 1700)]
+    if tier == "thorough":
+        cases += [_aligned_live_case(rng, 5, 5300), _aligned_live_case(rng, 5, 11000), _aligned_live_case(rng, 60, 3100)]
     return cases
 
 
@@ -421,6 +471,8 @@ def _lane(case):
             return 0                      # default go-redis timeouts: ~12 s for the call that runs into the hang
         if hang or any(op["op"] == "sleep" for op in case["ops"]):
             return 1
+    elif any(op["op"] == "sleep" for op in case.get("ops", [])):
+        return 1
     return 2
 
 
@@ -522,8 +574,12 @@ def encode(case, obs):
         lims = [cpair(cZ(l["period"]), cZ(l["quota"]), cbool(l["align"]), cnat(l.get("pfx", i))) for i, l in enumerate(case["lims"])]
         ops = []
         for op, o in zip(case["ops"], obs["ops"]):
-            if op["op"] == "tick":
+            if op["op"] in ("tick", "sleep"):
                 ops.append("XPTick %s" % cZ(op["ms"]))
+            elif op["op"] == "tickw":
+                ops.append("XPTick %s" % cZ(o["ms"]))       # the step the driver derived from the window length
+            elif op["op"] == "noise":
+                ops.append("XPTick (0)%Z")
             elif op["op"] == "replace":
                 ops.append("XPReplace")
             elif op["op"] == "take":
@@ -541,6 +597,20 @@ def encode(case, obs):
     for op, o in zip(case["ops"], obs["ops"]):
         if op["op"] in ("tick", "sleep"):
             ops.append("XTTick %s %s" % (cZ(op["ms"]), _snap(o)))
+        elif op["op"] == "noise":
+            ops.append("XTTick (0)%%Z %s" % _snap(o))
+        elif op["op"] == "race":
+            if o.get("skipped"):
+                ops.append("XTTick (0)%%Z %s" % _snap(o))
+                continue
+            # in model terms: Redis stops answering; B fails and starts the monitor; A (entered earlier, fails
+            # later) is served by the in-process bucket after B; Redis answers again and the monitor finishes.
+            unk = "(mkSnap false true false true false (-1, 0, 0)%Z (-1, 0, 0)%Z)"
+            i, n = cnat(op.get("inst", 0)), cZ(op["n"])
+            ops.append("XTFault false false false %s" % unk)
+            ops.append("XTAllow %s %s 0%%nat (0)%%Z %s %s" % (i, n, cbool(o["okB"]), unk))
+            ops.append("XTAllow %s %s 0%%nat (0)%%Z %s %s" % (i, n, cbool(o["okA"]), unk))
+            ops.append("XTFault true true false %s" % _snap(o))
         elif op["op"] == "allow":
             ops.append("XTAllow %s %s %s %s %s %s" % (cnat(op.get("inst", 0)), cZ(op["n"]), cnat(op.get("ctx", 0)),
                                                       cZ(op.get("skew", 0)), cbool(o["ok"]), _snap(o)))
